@@ -32,6 +32,7 @@ class GatedSelector(selectors.BaseSelector):
         self._real = selectors.DefaultSelector()
         self._clock = clock
         self.closed_gates: set[int] = set()  # fds whose readiness is hidden
+        self.gate_until: dict[int, float] = {}  # fd -> virtual time before which its readiness is hidden
         self.on_idle: Callable[[], bool] | None = None  # harness hook: called when nothing is ready; True if it made progress
         self._spin = 0
         self.real_wait: Callable[[], bool] | None = None  # returns True if real time waiting may produce events (in-flight bytes)
@@ -59,6 +60,9 @@ class GatedSelector(selectors.BaseSelector):
         evs = self._real.select(real_timeout)
         if self.closed_gates:
             evs = [(k, m) for (k, m) in evs if k.fd not in self.closed_gates]
+        if self.gate_until:
+            now = self._clock.now
+            evs = [(k, m) for (k, m) in evs if self.gate_until.get(k.fd, 0.0) <= now + 1e-9]
         return evs
 
     def select(self, timeout=None):  # type: ignore[no-untyped-def]
@@ -90,7 +94,8 @@ class GatedSelector(selectors.BaseSelector):
         if timeout is None:
             raise VirtualDeadlock("event loop would block forever: nothing ready, no timer pending")
         self._clock.now += timeout
-        return []
+        # a gate may open exactly now (data "arrives" while the loop sleeps, at the instant a timer is due)
+        return self._poll(0) if self.gate_until else []
 
 
 class VClock:
@@ -126,6 +131,10 @@ class VLoop(asyncio.SelectorEventLoop):
 
     def open_gate(self, fd: int) -> None:
         self.vselector.closed_gates.discard(fd)
+
+    def hide_until(self, fd: int, when: float) -> None:
+        """Readiness of fd is invisible to the loop before virtual time `when`."""
+        self.vselector.gate_until[fd] = when
 
 
 def run(coro_fn: Callable[[], Coroutine[Any, Any, Any]], *, debug: bool = False) -> Any:
